@@ -87,10 +87,7 @@ theorem defaultInScope_iff (chain : List Tree) :
   rw [namespaceForPrefixChain_eq]
   cases hs : scopeSpecChain chain Env.emptyPrefix with
   | none => simp
-  | some d =>
-    have hd : d ≠ Env.noNamespace := fun h => scopeSpecChain_empty_ne chain (h ▸ hs)
-    have : (d == Env.noNamespace) = false := by simpa using hd
-    simp [realNs, this]
+  | some d => simp
 
 /-! ### `prefix_for_name` -/
 
